@@ -735,11 +735,18 @@ def make_steps(rec, B, rnd):
     pr = base.pyrepr
     N = ns()
     n = rec.n
+    def encode(cls, v, r):
+        # Align documents an integer delay: only integer-preserving encodings are valid inputs
+        if cls.kind == "align":
+            x = int(v[0])
+            return r.choice([lambda: x, lambda: (x,), lambda: [x], lambda: np.array([x])])()
+        return base.encode_gate_value(cls, v, r)
+
     steps = []
     for s in range(2):
-        e = base.encode_gate_value(rec.cls, rec.canon(B), random.Random(rnd.randrange(10**6)))
+        e = encode(rec.cls, rec.canon(B), random.Random(rnd.randrange(10**6)))
         steps.append(Step("upd:gate.parameters", (lambda g, e=e: (setattr(g, "parameters", e), g)[1]), f"g.parameters = {pr(e)}"))
-    e = base.encode_gate_value(rec.cls, rec.canon(B), random.Random(rnd.randrange(10**6)))
+    e = encode(rec.cls, rec.canon(B), random.Random(rnd.randrange(10**6)))
     steps.append(Step("upd:set_parameters:list", (lambda g, e=e: (N["circ"](g, n).set_parameters([e]), g)[1]), f"circ(g, {n}).set_parameters([{pr(e)}])"))
     steps.append(Step("upd:set_parameters:dict", (lambda g, e=e: (N["circ"](g, n).set_parameters({g: e}), g)[1]), f"circ(g, {n}).set_parameters({{g: {pr(e)}}})"))
     if rec.cls.kind not in ("gfsim", "align"):
@@ -1058,6 +1065,314 @@ def shift_all_classes(ctx, recs):
     ctx.stats["shift_classes_accepted"] = ",".join(accepted)
     ctx.ob("C06_search_shift_classes", bad == 0, "search", f"{bad} accepted gates with a wrong derivative" if bad else "")
 
+
+# ---------------------------------------------------------------------------
+# round 5: dtype histories of Unitary, bookkeeping of derived circuits, Parameter objects
+
+R5_PRE = ("import numpy as np\nfrom qibo import Circuit, gates\nfrom qibo.backends import NumpyBackend\nnb = NumpyBackend()\n")
+
+
+def _dtype_matrix(kind, d, rs):
+    """a unitary d x d matrix of the given dtype family"""
+    if kind.startswith("int"):
+        p = rs.permutation(d)
+        return np.eye(d, dtype=kind)[p]
+    if kind.startswith("float"):
+        a = rs.randn(d, d)
+        q, r = np.linalg.qr(a)
+        return (q * np.sign(np.diag(r))).astype(kind)
+    a = rs.randn(d, d) + 1j * rs.randn(d, d)
+    q, r = np.linalg.qr(a)
+    return (q * (np.diag(r) / np.abs(np.diag(r)))).astype(kind)
+
+
+def unitary_dtype_search(ctx):
+    """(construction dtype, update dtype) histories of `Unitary` through every update route /
+    encoding: afterwards parameters, matrix, unitary, invert and fuse use the matrix that was set."""
+    from qibo import Circuit
+
+    nb = qgates.np_backend()
+    G = qgates.gates_module()
+    pr = _base().pyrepr
+    rnd = ctx.rng
+    kinds = ["int64", "int32", "float64", "float32", "complex128", "complex64"]
+    bad = 0
+    seen = set()
+    for k0 in kinds:
+        for k1 in kinds:
+            for nq in (1, 2):
+                rs = np.random.RandomState(rnd.randrange(2**31))
+                d = 2**nq
+                m0, m1 = _dtype_matrix(k0, d, rs), _dtype_matrix(k1, d, rs)
+                want = np.asarray(m1, dtype=complex)
+                routes = {
+                    "gate.parameters": (lambda g, c, v: setattr(g, "parameters", v), "g.parameters = {v}"),
+                    "list": (lambda g, c, v: c.set_parameters([v]), "c.set_parameters([{v}])"),
+                    "dict": (lambda g, c, v: c.set_parameters({g: v}), "c.set_parameters({{g: {v}}})"),
+                    "flat": (lambda g, c, v: c.set_parameters(v), "c.set_parameters({v})"),
+                }
+                for rname, (fn, tmpl) in routes.items():
+                    encs = [m1.reshape(-1).tolist(), m1.reshape(-1).copy()] if rname == "flat" else [m1.copy(), (m1.copy(),), m1.reshape(-1).copy()]
+                    for ei, enc in enumerate(encs):
+                        ctx.case(("unitary-dtype", k0, k1, nq, rname, ei))
+                        g = G.Unitary(m0.copy(), *range(nq))
+                        c = Circuit(nq)
+                        c.add(g)
+                        try:
+                            fn(g, c, enc)
+                        except Exception as e:  # noqa: BLE001
+                            ctx.stat(f"unitary_dtype_update_raises_{type(e).__name__}")
+                            continue
+                        views = {}
+                        try:
+                            views["parameters"] = np.asarray(g.parameters[0], dtype=complex)
+                            views["get_parameters"] = np.asarray(c.get_parameters()[0][0], dtype=complex).reshape(d, d)
+                            views["matrix"] = np.asarray(g.matrix(nb))
+                            views["unitary"] = np.asarray(c.unitary(nb))
+                            views["invert"] = np.asarray(c.invert().unitary(nb)).conj().T
+                            views["fuse"] = np.asarray(c.fuse().unitary(nb))
+                            views["raw"] = np.asarray(g.raw["init_args"][0], dtype=complex)
+                        except Exception as e:  # noqa: BLE001
+                            views["raises"] = e
+                        tol = 1e-5 if "32" in k1 or k1 == "complex64" else 1e-9
+                        wrong = [v for v, a in views.items() if isinstance(a, Exception) or not np.allclose(np.asarray(a).reshape(d, d), want, atol=tol)]
+                        if not wrong:
+                            continue
+                        bad += 1
+                        key = f"unitary-dtype:{'real' if not k0.startswith('complex') else 'complex'}->{'real' if not k1.startswith('complex') else 'complex'}:{wrong[0]}"
+                        if key in seen:
+                            continue
+                        seen.add(key)
+                        code = (R5_PRE + f"m0 = np.array({m0.tolist()}, dtype='{k0}')\nm1 = np.array({m1.tolist()}, dtype='{k1}')\n"
+                                f"g = gates.Unitary(m0, {', '.join(map(str, range(nq)))})\nc = Circuit({nq}); c.add(g)\n"
+                                + tmpl.format(v={0: "m1", 1: "(m1,)", 2: "m1.reshape(-1)"}[ei] if rname != "flat" else ("m1.reshape(-1).tolist()" if ei == 0 else "m1.reshape(-1)")) + "\n"
+                                "want = m1.astype(complex)\n"
+                                "assert np.allclose(np.asarray(g.parameters[0], dtype=complex), want, atol=1e-5)\n"
+                                "assert np.allclose(c.unitary(nb), want, atol=1e-5)\nassert np.allclose(c.invert().unitary(nb).conj().T, want, atol=1e-5)\n"
+                                "assert np.allclose(c.fuse().unitary(nb), want, atol=1e-5)\n")
+                        ctx.fail(key, f"Unitary built from a {k0} matrix and updated ({rname}, encoding {ei}) with a {k1} matrix: views {wrong} do not use the matrix that was set",
+                                 code, broken=["C06_search_unitary_dtype"])
+    ctx.ob("C06_search_unitary_dtype", bad == 0, "search", f"{bad} (dtype, route) histories lose the matrix that was set" if bad else "")
+
+
+def _flat_gates(c):
+    from qibo.gates.special import FusedGate
+
+    out = []
+    for g in c.queue:
+        out += list(g.gates) if isinstance(g, FusedGate) else [g]
+    return out
+
+
+def derived_bookkeeping_search(ctx):
+    """derive a circuit (fuse, shallow/deep copy, invert, +, decompose, on_qubits into a bigger one),
+    then ADD parametrised gates to the derived circuit and to the original: the parametrised /
+    trainable bookkeeping and get/set_parameters of EACH circuit must be those of its own queue."""
+    from qibo import Circuit
+    from qibo.gates.abstract import ParametrizedGate
+
+    G = qgates.gates_module()
+    rnd = ctx.rng
+    bad = 0
+    seen = set()
+    derivs = {
+        "fuse": ("d = c.fuse()", lambda c: c.fuse()),
+        "fuse1": ("d = c.fuse(max_qubits=1)", lambda c: c.fuse(max_qubits=1)),
+        "copy": ("d = c.copy()", lambda c: c.copy()),
+        "copy_deep": ("d = c.copy(deep=True)", lambda c: c.copy(deep=True)),
+        "invert": ("d = c.invert()", lambda c: c.invert()),
+        "add": ("d = c + Circuit(c.nqubits)", lambda c: c + Circuit(c.nqubits)),
+        "decompose": ("d = c.decompose()", lambda c: c.decompose()),
+        "light_cone": ("d = c.light_cone(*range(c.nqubits))[0]", lambda c: c.light_cone(*range(c.nqubits))[0]),
+    }
+    pool = [("RX", 1, 1), ("RY", 1, 1), ("U3", 1, 3), ("fSim", 2, 2), ("RZZ", 2, 1), ("CRX", 2, 1), ("U2", 1, 2)]
+
+    def rand_gate_code(n):
+        nm, nq, npar = rnd.choice(pool)
+        qs = rnd.sample(range(n), nq)
+        vals = [round(rnd.uniform(-3, 3), 4) for _ in range(npar)]
+        tr = rnd.random() < 0.75
+        return f"gates.{nm}({', '.join(map(str, qs))}, {', '.join(map(repr, vals))}{'' if tr else ', trainable=False'})"
+
+    def consistent(x):
+        flat = _flat_gates(x)
+        par = [g for g in flat if isinstance(g, ParametrizedGate)]
+        tr = [g for g in par if g.trainable]
+        issues = []
+        if sorted(map(id, x.parametrized_gates)) != sorted(map(id, par)):
+            issues.append("parametrized_gates")
+        if sorted(map(id, x.trainable_gates)) != sorted(map(id, tr)):
+            issues.append("trainable_gates")
+        if x.trainable_gates.nparams != sum(g.nparams for g in tr) or x.parametrized_gates.nparams != sum(g.nparams for g in par):
+            issues.append("nparams")
+        try:
+            if len(x.get_parameters("list", True)) != len(par) or len(x.get_parameters("flatlist")) != sum(g.nparams for g in tr) or len(x.get_parameters("dict")) != len(tr):
+                issues.append("get_parameters")
+            new = [tuple(round(rnd.uniform(-3, 3), 4) for _ in range(g.nparams)) for g in x.trainable_gates]
+            if tr:
+                x.set_parameters(new)
+                if [tuple(p) for p in x.get_parameters("list")] != new:
+                    issues.append("set_parameters:list")
+                fl = [v for p in new for v in p]
+                x.set_parameters([v + 0.5 for v in fl])
+                if not np.allclose(x.get_parameters("flatlist"), [v + 0.5 for v in fl]):
+                    issues.append("set_parameters:flat")
+        except Exception as e:  # noqa: BLE001
+            issues.append(f"raises:{type(e).__name__}")
+        return issues
+
+    ns_ = {"Circuit": Circuit, "gates": G, "np": np}
+    import qibo
+
+    ns_["gates"] = qibo.gates
+    for dname, (dcode, dfn) in derivs.items():
+        for trial in range(8 if ctx.thorough else 3):
+            n = rnd.randint(2, 3)
+            lines = [f"c = Circuit({n})"] + [f"c.add({rand_gate_code(n)})" for _ in range(rnd.randint(2, 5))]
+            if rnd.random() < 0.5:
+                lines.insert(rnd.randint(1, len(lines)), f"c.add(gates.H({rnd.randrange(n)}))")
+            lines.append(dcode)
+            order = rnd.choice([("d", "c"), ("c", "d"), ("d",), ("d", "d", "c")])
+            for who in order:
+                lines.append(f"{who}.add({rand_gate_code(n)})")
+            env = dict(ns_)
+            try:
+                exec("\n".join(lines), env)
+            except Exception:  # noqa: BLE001 — e.g. deep copy of a fused circuit is refused
+                ctx.stat("derived_history_refused")
+                continue
+            ctx.case(("derived-bookkeeping", dname, trial, order))
+            for who in ("c", "d"):
+                issues = consistent(env[who])
+                if not issues:
+                    continue
+                bad += 1
+                key = f"derived-bookkeeping:{dname}:add-to-{'+'.join(sorted(set(order)))}:{'original' if who == 'c' else 'derived'}"
+                if key in seen:
+                    continue
+                seen.add(key)
+                code = ("from qibo import Circuit, gates\nfrom qibo.gates.abstract import ParametrizedGate\nfrom qibo.gates.special import FusedGate\n" + "\n".join(lines) + "\n"
+                        f"x = {who}\nflat = []\nfor g in x.queue: flat += list(g.gates) if isinstance(g, FusedGate) else [g]\n"
+                        "par = [g for g in flat if isinstance(g, ParametrizedGate)]; tr = [g for g in par if g.trainable]\n"
+                        "assert sorted(map(id, x.parametrized_gates)) == sorted(map(id, par)), 'parametrized_gates lists a gate that is not in the queue (or misses one)'\n"
+                        "assert sorted(map(id, x.trainable_gates)) == sorted(map(id, tr))\n"
+                        "assert x.trainable_gates.nparams == sum(g.nparams for g in tr)\n"
+                        "assert len(x.get_parameters('list', True)) == len(par) and len(x.get_parameters('flatlist')) == sum(g.nparams for g in tr)\n"
+                        "x.set_parameters([tuple(0.1 for _ in range(g.nparams)) for g in tr])\n")
+                ctx.fail(key, f"after `{dcode}` and adding gates to {order}, the bookkeeping of the {'original' if who == 'c' else 'derived'} circuit is not that of its own queue: {issues}",
+                         code, broken=["C06_search_derived_bookkeeping"])
+    ctx.ob("C06_search_derived_bookkeeping", bad == 0, "search", f"{bad} circuits with foreign bookkeeping" if bad else "")
+
+
+def parameter_object_search(ctx):
+    """`qibo.parameter.Parameter`: value and partial derivatives of lambdas that share one code
+    object but differ in their closure (factory, loop, comprehension), against central differences;
+    chain-rule gradient of a re-uploading circuit against finite differences of the expectation."""
+    from qibo import Circuit, hamiltonians
+    from qibo.derivative import parameter_shift
+    from qibo.parameter import Parameter
+
+    nb = qgates.np_backend()
+    G = qgates.gates_module()
+    rnd = ctx.rng
+    bad = 0
+    seen = set()
+
+    def factory(w, b):
+        return lambda x, th1, th2: w * x * th1 + b * th2**2 + w * b * th1 * th2
+
+    def fail(key, what, code):
+        nonlocal bad
+        bad += 1
+        if key not in seen:
+            seen.add(key)
+            ctx.fail(key, what, code, broken=["C06_search_parameter_objects"])
+
+    for trial in range(6 if ctx.thorough else 3):
+        ws = [round(rnd.uniform(0.3, 2.0), 3) for _ in range(3)]
+        bs = [round(rnd.uniform(-1.5, 1.5), 3) for _ in range(3)]
+        x = round(rnd.uniform(0.2, 1.5), 3)
+        ths = [[round(rnd.uniform(-1, 1), 3), round(rnd.uniform(-1, 1), 3)] for _ in range(3)]
+        styles = {
+            "factory": lambda: [Parameter(factory(w, b), trainable=list(t), features=[x]) for w, b, t in zip(ws, bs, ths)],
+            "comprehension": lambda: [Parameter((lambda w, b: (lambda x, th1, th2: w * x * th1 + b * th2**2 + w * b * th1 * th2))(w, b), trainable=list(t), features=[x]) for w, b, t in zip(ws, bs, ths)],
+            "distinct": lambda: [Parameter(lambda x, th1, th2: ws[0] * x * th1 + bs[0] * th2**2 + ws[0] * bs[0] * th1 * th2, trainable=list(ths[0]), features=[x]),
+                                 Parameter(lambda x, th1, th2: ws[1] * x * th1 + bs[1] * th2**2 + ws[1] * bs[1] * th1 * th2, trainable=list(ths[1]), features=[x]),
+                                 Parameter(lambda x, th1, th2: ws[2] * x * th1 + bs[2] * th2**2 + ws[2] * bs[2] * th1 * th2, trainable=list(ths[2]), features=[x])],
+        }
+        for sname, mk in styles.items():
+            ps = mk()
+            for k, p in enumerate(ps):
+                w, b, t = ws[k], bs[k], ths[k]
+                ctx.case(("parameter-object", sname, trial, k))
+                val = w * x * t[0] + b * t[1] ** 2 + w * b * t[0] * t[1]
+                exact = [w * t[0] + 0 * x, w * x + w * b * t[1], 2 * b * t[1] + w * b * t[0]]
+                code = ("from qibo.parameter import Parameter\n"
+                        "def factory(w, b):\n    return lambda x, th1, th2: w * x * th1 + b * th2**2 + w * b * th1 * th2\n"
+                        f"ps = [Parameter(factory(w, b), trainable=list(t), features=[{x!r}]) for w, b, t in zip({ws!r}, {bs!r}, {ths!r})]\n"
+                        f"p = ps[{k}]\nassert abs(p() - ({val!r})) < 1e-9\n"
+                        + "".join(f"assert abs(p.partial_derivative({i}) - ({exact[i]!r})) < 1e-9, (p.partial_derivative({i}), {exact[i]!r})\n" for i in (1, 2)))
+                try:
+                    if abs(p() - val) > 1e-9:
+                        fail(f"parameter:value:{sname}", f"Parameter number {k} built by {sname} evaluates to {p()} instead of {val}", code)
+                    for i in (1, 2):
+                        got = p.partial_derivative(i)
+                        if abs(got - exact[i]) > 1e-9:
+                            fail(f"parameter:partial_derivative:{sname}", f"partial_derivative({i}) of Parameter number {k} built by {sname} (closure w={w}, b={b}) is {got}; the derivative of its lambda is {exact[i]}", code)
+                except Exception as e:  # noqa: BLE001
+                    fail(f"parameter:raises:{sname}", f"Parameter built by {sname} raises {type(e).__name__}: {e}", code)
+        # chain rule through a re-uploading circuit
+        rs = np.random.RandomState(rnd.randrange(2**31))
+        m = rs.randn(2, 2) + 1j * rs.randn(2, 2)
+        hm = (m + m.conj().T) / 2
+        ham = hamiltonians.Hamiltonian(1, hm, backend=nb)
+        rots = ["RX", "RY", "RZ"]
+
+        def angle_fac(w, b):
+            return lambda x, th: w * x * th + b
+
+        def build(tv):
+            c = Circuit(1)
+            ps = []
+            for k in range(3):
+                p = Parameter(angle_fac(ws[k], bs[k]), trainable=[tv[k]], features=[x])
+                ps.append(p)
+                c.add(getattr(G, rots[k])(0, theta=p))
+            return c, ps
+
+        def energy(tv):
+            c, _ = build(tv)
+            st = np.asarray(nb.execute_circuit(c).state())
+            return float(np.real(st.conj() @ hm @ st))
+
+        tv = [t[0] for t in ths]
+        c, ps = build(tv)
+        for k in range(3):
+            ctx.case(("parameter-chain", trial, k))
+            try:
+                grad = parameter_shift(c, ham, k) * ps[k].partial_derivative(1)
+            except Exception as e:  # noqa: BLE001
+                fail("parameter:chain-rule:raises", f"chain rule raises {type(e).__name__}: {e}", "")
+                continue
+            h = 1e-3
+            up, dn = list(tv), list(tv)
+            up[k] += h
+            dn[k] -= h
+            up2, dn2 = list(tv), list(tv)
+            up2[k] += h / 2
+            dn2[k] -= h / 2
+            d1 = (energy(up) - energy(dn)) / (2 * h)
+            d2 = (energy(up2) - energy(dn2)) / h
+            ref = (4 * d2 - d1) / 3
+            if abs(grad - ref) > 1e-6:
+                code = ("import numpy as np\nfrom qibo import Circuit, gates, hamiltonians\nfrom qibo.backends import NumpyBackend\nfrom qibo.derivative import parameter_shift\nfrom qibo.parameter import Parameter\nnb = NumpyBackend()\n"
+                        f"ws, bs, x, tv = {ws!r}, {bs!r}, {x!r}, {tv!r}\nhm = np.array({hm.tolist()})\nham = hamiltonians.Hamiltonian(1, hm, backend=nb)\n"
+                        "def fac(w, b):\n    return lambda x, th: w * x * th + b\n"
+                        "c = Circuit(1); ps = []\nfor k, R in enumerate((gates.RX, gates.RY, gates.RZ)):\n    p = Parameter(fac(ws[k], bs[k]), trainable=[tv[k]], features=[x]); ps.append(p); c.add(R(0, theta=p))\n"
+                        f"grad = parameter_shift(c, ham, {k}) * ps[{k}].partial_derivative(1)\nassert abs(grad - ({ref!r})) < 1e-6, (grad, {ref!r})\n")
+                fail("parameter:chain-rule", f"chain-rule gradient w.r.t. trainable {k} of a re-uploading circuit (angles w_k*x*th_k + b_k from one factory) is {grad}; the derivative of the expectation is {ref}", code)
+    ctx.ob("C06_search_parameter_objects", bad == 0, "search", f"{bad} Parameter values/derivatives wrong" if bad else "")
+
 # ---------------------------------------------------------------------------
 
 
@@ -1107,6 +1422,9 @@ def run_suites(ctx):
     search(ctx, tr.recs, status)
     adjoint_search(ctx, tr.recs)
     shift_all_classes(ctx, tr.recs)
+    unitary_dtype_search(ctx)
+    derived_bookkeeping_search(ctx)
+    parameter_object_search(ctx)
     ctx.trusted.append("the gate-table tracer tools/props/C06_gateobj.py (storage locations by differential construction, reads by poking one location at a time, "
                        "results observed through documented attributes); QV.Model.GateObj abstracts a method's result as a function of the locations it reads")
     ctx.notes.append("gate level: class table regenerated for every parametrised class (fields, 3-4 update routes x 5 encodings, 13 views, 8 producers incl. controlled_by with 1/2/3 controls with their identity fields and the specified kept slots (trainable flag), deep-copy sharing), "
